@@ -135,6 +135,20 @@ class Case:
             out.pair(self.prefix + "col2im(col_indices=...) a second time", ct.col2im(y2, (N, C, H, W), kk, dd, ss, pp, col_indices=idx_i), fref)
         else:
             out.fact(self.prefix + "im2col(return_indices=True) returns (columns, indices)", False, "it returned %s" % type(r_).__name__)
+        # the same option on the scatter side (round k): col2im(return_indices=True) returns (image, indices); the image is
+        # the very image the plain call returns (cropped to the requested shape) and the indices serve im2col as well
+        for lay, yy in (("N x CkHkW x L", y), ("2-D", y2)):
+            r2_ = ct.col2im(yy, (N, C, H, W), kk, dd, ss, pp, return_indices=True)
+            if isinstance(r2_, tuple) and len(r2_) == 2:
+                img_i, idx2_i = r2_
+                out.fact(self.prefix + "col2im(return_indices=True, %s) returns an image of the requested shape" % lay,
+                         tuple(np.shape(img_i)) == (N, C, H, W), "shape %s, requested %s" % (tuple(np.shape(img_i)), (N, C, H, W)))
+                if tuple(np.shape(img_i)) == (N, C, H, W):
+                    out.pair(self.prefix + "col2im(return_indices=True, %s) values" % lay, img_i, fref)
+                if lay == "2-D":
+                    out.pair(self.prefix + "im2col(col_indices=indices col2im returned)", ct.im2col(x, kk, dd, ss, pp, pad, col_indices=idx2_i), cref)
+            else:
+                out.fact(self.prefix + "col2im(return_indices=True, %s) returns (image, indices)" % lay, False, "it returned %s" % type(r2_).__name__)
         # sliding-window extractor and its placement routine
         win = ct.extract_windows(x, kk, ss, pp, dd, pad_value=pad)
         wref = objarr((lH, lW, N, C, k[0], k[1]))
